@@ -125,7 +125,8 @@ class Gen:
         if k < 0.78:
             return ("HOpt", self.hint(d - 1))
         if k < 0.95:
-            return ("HUnion", [self.hint(d - 1) for _ in range(r.randint(1, 4))])
+            # at least two members: typing itself turns Union[X] into X (and then flattens Annotated[Annotated[..]])
+            return ("HUnion", [self.hint(d - 1) for _ in range(r.randint(2, 4))])
         inner = self.hint(d - 1)
         if inner[0] == "HAnn":
             inner = ("HCls", 0)
@@ -313,7 +314,8 @@ def preserving(g, h, d=2):
             return ("HUnion", hs + [r.choice(hs)])
         if j == 2 and len(hs) >= 2:
             c = r.randrange(1, len(hs))
-            return ("HUnion", [("HUnion", hs[:c]), ("HUnion", hs[c:])])
+            one = lambda l: l[0] if len(l) == 1 else ("HUnion", l)     # noqa: E731  (typing turns Union[X] into X)
+            return ("HUnion", [one(hs[:c]), one(hs[c:])])
         if j == 3 and ("HNone",) in hs and len(hs) >= 2:
             rest = [x for x in hs if x != ("HNone",)]
             if rest:
@@ -355,7 +357,7 @@ def preserving(g, h, d=2):
             elif p[0] == "bound":
                 args.append(("HCls", p[1]))
             else:
-                args.append(("HUnion", [("HCls", c) for c in p[1]]))
+                args.append(("HUnion", [("HCls", c) for c in p[1]]) if len(p[1]) > 1 else ("HCls", p[1][0]))
         return ("HGen", h[1], args)
     if k == "HTupleBare":
         return ("HTupleVar", ("HAny",))
